@@ -72,6 +72,8 @@ pub enum Op {
     /// approved hub message asking to deploy a token under the id of a token the history already knows
     /// (service-deployed or canonical): whatever the service answers, the known token's accounting must go on unchanged
     InDeployForKnownToken { tok: u8, origin: u8 },
+    /// the owner upgrades the token service and completes the migration: registry, trusted chains and custody are carried over
+    UpgradeAndMigrate,
 }
 
 #[derive(Clone, Debug, Serialize, Deserialize)]
@@ -114,6 +116,7 @@ fn op() -> impl Strategy<Value = Op> {
         1 => (0u8..5, 0u8..NU as u8, 0u8..3, 1u8..50, 0u8..4).prop_map(|(tok, to, origin, low, which)| Op::InOutOfRangeAmount { tok, to, origin, low, which }),
         1 => (0u8..NU as u8, 0u8..5, 0u8..3, any::<bool>()).prop_map(|(user, tok, chain, space)| Op::OutLookalikeChain { user, tok, chain, space }),
         1 => (0u8..5, 0u8..3).prop_map(|(tok, origin)| Op::InDeployForKnownToken { tok, origin }),
+        1 => Just(Op::UpgradeAndMigrate),
     ]
 }
 
@@ -238,6 +241,10 @@ impl Property for C05 {
                         days_passed += *d as u32;
                         advance_ledgers(env, *d as u32 * 17280);
                     }
+                }
+                Op::UpgradeAndMigrate => {
+                    upgrade_and_migrate(env, &w.its.id).map_err(|e| format!("step {}: {}", step, e))?;
+                    cx.label("upgrade_and_migration_in_history");
                 }
                 Op::Trust(c) => {
                     let c = *c as usize % 3;
